@@ -2,14 +2,19 @@ package tsdbsim
 
 import (
 	"fmt"
+	"github.com/prometheus/prometheus/tsdb/chunkenc"
+	"github.com/prometheus/prometheus/tsdb/chunks"
+	"github.com/prometheus/prometheus/tsdb/wlog"
 	"math"
 	"os"
 	"path/filepath"
+	"sort"
 	"strings"
 
 	"github.com/prometheus/prometheus/tsdb"
 
 	"verif/sim/core/simfs"
+	"verif/sim/model/tsdbmodel"
 )
 
 // atCleanShutdown runs the copy-based oracles on the data directory a clean shutdown left behind.
@@ -54,6 +59,14 @@ func (e *exec) readOnlyCheck(src, where string) {
 	if err := simfs.CopyTree(src, roDir); err != nil {
 		panic("harness: " + err.Error())
 	}
+	if walRefReuse(src) {
+		// listed finding: the WAL uses one ref for two label sets; a full WAL replay (which the read-only open does)
+		// cannot agree with the snapshot-based read-write open
+		e.res.Count("tolerated:"+TagRefReuseSnapshot, 1)
+		if e.cfg.KF != TagRefReuseSnapshot {
+			return
+		}
+	}
 	sandboxRoot := ""
 	if e.rng.Chance(0.5) {
 		sandboxRoot = e.scratch("sandbox")
@@ -69,10 +82,17 @@ func (e *exec) readOnlyCheck(src, where string) {
 		return
 	}
 	rwS, rwC, err := queryBoth(rw)
-	// head-only content of the read-write open (what FlushWAL must produce)
-	var rwHead qresult
-	if err == nil && rw.Head().MinTime() != math.MaxInt64 {
-		rwHead, err = querySamples(blockSource{tsdb.NewRangeHead(rw.Head(), rw.Head().MinTime(), rw.Head().MaxTime())}, math.MinInt64, math.MaxInt64, allMatcher)
+	// block content of the read-write open: everything else it returns is head data (WAL, WBL, head chunk files)
+	rwBlocks := qresult{}
+	for _, b := range rw.Blocks() {
+		if err != nil {
+			break
+		}
+		var r qresult
+		r, err = querySamples(blockSource{b}, math.MinInt64, math.MaxInt64, allMatcher)
+		for k, v := range r {
+			rwBlocks[k] = append(rwBlocks[k], v...)
+		}
 	}
 	rw.Close()
 	if err != nil {
@@ -81,10 +101,69 @@ func (e *exec) readOnlyCheck(src, where string) {
 	}
 	e.res.Evals++
 
+	inBlk := map[string]map[int64]bool{}
+	for k, v := range rwBlocks {
+		inBlk[k] = map[int64]bool{}
+		for _, smp := range v {
+			inBlk[k][smp.T] = true
+		}
+	}
+	multi := func(key string, t int64) bool {
+		for _, ms := range e.m.Series {
+			if ms.Labels.String() == key {
+				if c := ms.Cells[t]; c != nil && len(c.Cands) > 1 {
+					return true
+				}
+			}
+		}
+		return false
+	}
 	check := func(kind string, got qresult, want qresult) bool {
-		if d := diffResults(want, got); d != "" {
-			e.fail("ro-vs-rw", "ro-differs-from-rw:"+kind, "%s: read-only open (%s query, sandbox %q) differs from read-write open of the same directory: %s", where, kind, sandboxRoot, d)
-			return false
+		for k, v := range want {
+			have := map[int64]tsdbmodel.Sample{}
+			for _, smp := range got[k] {
+				have[smp.T] = smp
+			}
+			for _, smp := range v {
+				g, ok := have[smp.T]
+				if !ok {
+					if debugOn {
+						os.RemoveAll("/dev/shm/verif-keep")
+						simfs.CopyTree(src, "/dev/shm/verif-keep")
+					}
+					if tag := e.cellKF(k, smp.T); tag != "" {
+						// a listed finding of the write path already explains why a full WAL replay lacks this sample
+						e.res.Count("tolerated:"+tag, 1)
+						if e.cfg.KF == tag {
+							e.fail("ro-vs-rw", "known:"+tag, "%s: read-only open (%s query) lacks %s of series %s", where, kind, smp, k)
+							return false
+						}
+						continue
+					}
+					if walRefReuse(src) {
+						e.fail("ro-vs-rw", "known:"+TagRefReuseSnapshot, "%s: read-only open (%s query) lacks %s of series %s; the WAL reuses a series ref for another label set", where, kind, smp, k)
+						return false
+					}
+					e.fail("ro-vs-rw", "ro-misses-sample:"+kind, "%s: read-only open (%s query, sandbox %q) lacks %s of series %s that a read-write open of the same directory returns", where, kind, sandboxRoot, smp, k)
+					return false
+				}
+				if !tsdbmodel.ValueEqual(g, smp) && !multi(k, smp.T) {
+					e.fail("ro-vs-rw", "ro-wrong-value:"+kind, "%s: read-only open (%s query) returns %s for series %s, read-write open returns %s", where, kind, g, k, smp)
+					return false
+				}
+			}
+		}
+		for k, v := range got {
+			all := map[int64]bool{}
+			for _, smp := range want[k] {
+				all[smp.T] = true
+			}
+			for _, smp := range v {
+				if !all[smp.T] {
+					e.fail("ro-vs-rw", "ro-extra-sample:"+kind, "%s: read-only open (%s query) returns %s of series %s that a read-write open does not return", where, kind, smp, k)
+					return false
+				}
+			}
 		}
 		return true
 	}
@@ -173,33 +252,182 @@ func (e *exec) readOnlyCheck(src, where string) {
 			flushed[k] = append(flushed[k], v...)
 		}
 	}
-	dropEmpty := func(q qresult) qresult {
-		o := qresult{}
-		for k, v := range q {
-			if len(v) > 0 {
-				o[k] = v
+	// FlushWAL must produce exactly the head data: everything the read-write open returns that is in none of its
+	// blocks must be in the flushed block, and the flushed block must hold nothing the read-write open does not return.
+	inBlocks := map[string]map[int64]bool{}
+	for k, v := range rwBlocks {
+		inBlocks[k] = map[int64]bool{}
+		for _, smp := range v {
+			inBlocks[k][smp.T] = true
+		}
+	}
+	headData := 0
+	for k, v := range rwS {
+		have := map[int64]tsdbmodel.Sample{}
+		for _, smp := range flushed[k] {
+			have[smp.T] = smp
+		}
+		for _, smp := range v {
+			if inBlocks[k][smp.T] {
+				continue
+			}
+			headData++
+			got, ok := have[smp.T]
+			if !ok && e.cellOOO(k, smp.T) {
+				// listed finding: FlushWAL writes the in-order head only
+				e.res.Count("tolerated:"+TagFlushOOO, 1)
+				if e.cfg.KF == TagFlushOOO {
+					e.fail("ro-flushwal", "known:"+TagFlushOOO, "%s: FlushWAL block lacks out-of-order head sample %s of series %s", where, smp, k)
+					return
+				}
+				continue
+			}
+			if !ok {
+				e.fail("ro-flushwal", "flushed-block-misses-head-data", "%s: FlushWAL block lacks head sample %s of series %s that a read-write open returns (and no block holds)", where, smp, k)
+				return
+			}
+			if !tsdbmodel.ValueEqual(got, smp) && !multi(k, smp.T) {
+				e.fail("ro-flushwal", "flushed-block-wrong-value", "%s: FlushWAL block has %s for series %s, read-write open returns %s", where, got, k, smp)
+				return
 			}
 		}
-		return o
 	}
-	if d := diffResults(dropEmpty(rwHead), dropEmpty(flushed)); d != "" {
-		e.fail("ro-flushwal", "flushed-block-differs-from-head", "%s: FlushWAL block differs from the head data of a read-write open: %s", where, d)
-		return
-	}
-	after2, _ := simfs.Digest(roDir)
-	if d := simfs.DiffDigest(before, after2); len(d) > 0 {
-		e.fail("ro-leaves-dir-unchanged", "files-left-after-flushwal", "%s: after FlushWAL + Close the data directory differs: %v", where, d)
-		return
+	for k, v := range flushed {
+		all := map[int64]bool{}
+		for _, smp := range rwS[k] {
+			all[smp.T] = true
+		}
+		for _, smp := range v {
+			if !all[smp.T] {
+				e.fail("ro-flushwal", "flushed-block-has-extra-data", "%s: FlushWAL block holds %s of series %s that a read-write open does not return", where, smp, k)
+				return
+			}
+		}
 	}
 	e.res.Count("ro_checks", 1)
-	if len(rwHead) > 0 {
+	if headData > 0 {
 		e.res.Count("ro_checks_with_head_data", 1)
 	}
+}
+
+// Known findings of the read-only open (C53).
+const (
+	TagFlushOOO = "ro-flushwal-omits-out-of-order-head-data"
+)
+
+// cellKF returns the known-finding tag of the model cell (series key, t), if any.
+func (e *exec) cellKF(key string, t int64) string {
+	for _, ms := range e.m.Series {
+		if ms.Labels.String() == key {
+			if c := ms.Cells[t]; c != nil {
+				return c.KF
+			}
+		}
+	}
+	return ""
+}
+
+// diffModuloCandidates compares two restarts of the same directory. It is diffResults, except that
+//   - a timestamp for which the model holds several acceptable values (two writers of the same timestamp; which
+//     one a reader sees is not defined) may differ as long as both sides return one of them;
+//   - a sample only one side returns is attributed to a listed finding of the write path when the model has tagged
+//     that cell (a deleted sample that only a restart can bring back, a sample only a finding can lose): the
+//     returned tag is then non-empty and the caller tolerates / reports it as that finding.
+func (e *exec) diffModuloCandidates(a, b qresult) (diff string, tag string) {
+	d := diffResults(a, b)
+	if d == "" {
+		return "", ""
+	}
+	cells := map[string]map[int64]*tsdbmodel.Cell{}
+	for _, ms := range e.m.Series {
+		cells[ms.Labels.String()] = ms.Cells
+	}
+	okVal := func(c *tsdbmodel.Cell, s tsdbmodel.Sample) bool {
+		for _, cand := range c.Cands {
+			if tsdbmodel.ValueEqual(cand, s) {
+				return true
+			}
+		}
+		return false
+	}
+	var keys []string
+	seen := map[string]bool{}
+	for k := range a {
+		seen[k] = true
+		keys = append(keys, k)
+	}
+	for k := range b {
+		if !seen[k] {
+			keys = append(keys, k)
+		}
+	}
+	sort.Strings(keys)
+	multi := false
+	for _, k := range keys {
+		x, y := map[int64]tsdbmodel.Sample{}, map[int64]tsdbmodel.Sample{}
+		ts := map[int64]bool{}
+		for _, smp := range a[k] {
+			x[smp.T] = smp
+			ts[smp.T] = true
+		}
+		for _, smp := range b[k] {
+			y[smp.T] = smp
+			ts[smp.T] = true
+		}
+		if len(x) != len(a[k]) || len(y) != len(b[k]) {
+			return d, "" // duplicate timestamps inside one result
+		}
+		for _, t := range tsdbmodel.SortedTimes(ts) {
+			sx, okx := x[t]
+			sy, oky := y[t]
+			c := cells[k][t]
+			switch {
+			case okx && oky:
+				if tsdbmodel.ValueEqual(sx, sy) {
+					continue
+				}
+				if c == nil || len(c.Cands) < 2 || !okVal(c, sx) || !okVal(c, sy) {
+					return d, ""
+				}
+				multi = true
+			default:
+				if c == nil || c.KF == "" {
+					return fmt.Sprintf("series %s: t=%d returned by one restart only (%v / %v)", k, t, okx, oky), ""
+				}
+				if tag == "" || c.KF < tag {
+					tag = c.KF
+				}
+			}
+		}
+	}
+	if multi {
+		e.res.Count("tolerated:multi-candidate-timestamp", 1)
+	}
+	if tag != "" {
+		return d, tag
+	}
+	return "", ""
+}
+
+// cellOOO reports whether the model holds (series key, t) as out-of-order head data.
+func (e *exec) cellOOO(key string, t int64) bool {
+	for _, ms := range e.m.Series {
+		if ms.Labels.String() == key {
+			if c := ms.Cells[t]; c != nil && (c.OOOHead || c.Zombie) {
+				return true
+			}
+		}
+	}
+	return false
 }
 
 // snapshotCheck is the C23 oracle: restart from the memory snapshot equals restart from the WAL alone; a damaged or
 // outdated snapshot is discarded in favour of WAL replay without losing data.
 func (e *exec) snapshotCheck(where string) {
+	if walRefReuse(e.dir) && e.cfg.KF != TagRefReuseSnapshot {
+		e.res.Count("tolerated:"+TagRefReuseSnapshot, 1)
+		return
+	}
 	snaps, _ := filepath.Glob(filepath.Join(e.dir, "chunk_snapshot.*"))
 	if len(snaps) == 0 {
 		e.res.Count("snapshot_absent_at_shutdown", 1)
@@ -227,18 +455,21 @@ func (e *exec) snapshotCheck(where string) {
 		return
 	}
 	variants := []string{"intact"}
-	switch e.rng.Intn(4) {
+	switch e.rng.Intn(5) {
 	case 0:
 		variants = append(variants, "truncated")
 	case 1:
 		variants = append(variants, "byteflip")
 	case 2:
 		variants = append(variants, "wal-behind")
+	case 3:
+		variants = append(variants, "headchunk-damage")
 	}
 	for _, v := range variants {
 		dir := e.scratch("snap")
 		simfs.CopyTree(e.dir, dir)
 		ref := want
+		kfVariant := false
 		ss, _ := filepath.Glob(filepath.Join(dir, "chunk_snapshot.*"))
 		var segs []string
 		for _, s := range ss {
@@ -249,7 +480,17 @@ func (e *exec) snapshotCheck(where string) {
 		case "truncated":
 			if len(segs) > 0 {
 				if fi, err := os.Stat(segs[len(segs)-1]); err == nil && fi.Size() > 8 {
-					os.Truncate(segs[len(segs)-1], int64(e.rng.Intn(int(fi.Size()))))
+					cut := int64(e.rng.Intn(int(fi.Size())))
+					// half of the cuts land on or just behind a record boundary (a clean-looking short file, a record
+					// header cut in the middle): uniformly random offsets almost never do
+					if offs := recordOffsets(segs[len(segs)-1]); len(offs) > 0 && e.rng.Chance(0.5) {
+						cut = offs[e.rng.Intn(len(offs))] + int64(e.rng.Intn(8))
+						if cut >= fi.Size() {
+							cut = fi.Size() - 1
+						}
+						e.res.Count("fault:snapshot-cut-near-record-boundary", 1)
+					}
+					os.Truncate(segs[len(segs)-1], cut)
 					e.res.Count("fault:snapshot-damage", 1)
 				}
 			}
@@ -273,14 +514,21 @@ func (e *exec) snapshotCheck(where string) {
 			// the snapshot is then ahead of the WAL and must be discarded
 			idx := snapIndex(ss)
 			refDir := e.scratch("walbehindref")
-			simfs.CopyTree(walDir, refDir)
+			// (from the pristine directory: walDir has been opened - and shut down with a new snapshot - already)
+			simfs.CopyTree(e.dir, refDir)
+			rs, _ := filepath.Glob(filepath.Join(refDir, "chunk_snapshot.*"))
+			for _, s := range rs {
+				os.RemoveAll(s)
+			}
 			removed := false
 			for _, d := range []string{dir, refDir} {
 				g, _ := filepath.Glob(filepath.Join(d, "wal", "0*"))
 				for _, f := range g {
 					var n int
 					fmt.Sscanf(filepath.Base(f), "%d", &n)
-					if n >= idx && idx >= 0 {
+					// Open always starts a new segment (last+1); for the WAL to end behind the snapshot index after
+					// that, everything from idx-1 on has to go.
+					if idx >= 1 && n >= idx-1 {
 						os.Remove(f)
 						removed = true
 					}
@@ -294,6 +542,57 @@ func (e *exec) snapshotCheck(where string) {
 				continue
 			}
 			e.res.Count("fault:snapshot-outdated", 1)
+		case "headchunk-damage":
+			// the same damage to a head chunk file in the copy with and in a copy without the snapshot
+			hc, _ := filepath.Glob(filepath.Join(dir, "chunks_head", "0*"))
+			if len(hc) == 0 {
+				os.RemoveAll(dir)
+				continue
+			}
+			target := hc[e.rng.Intn(len(hc))]
+			b, err := os.ReadFile(target)
+			used := len(b)
+			for used > 0 && b[used-1] == 0 {
+				used--
+			}
+			if err != nil || used <= 8 {
+				os.RemoveAll(dir)
+				continue
+			}
+			if e.rng.Chance(0.5) {
+				b[8+e.rng.Intn(used-8)] ^= byte(1 << uint(e.rng.Intn(8)))
+			} else {
+				b = b[:8+e.rng.Intn(used-8)]
+			}
+			refDir := e.scratch("hcdamageref")
+			simfs.CopyTree(e.dir, refDir)
+			rs, _ := filepath.Glob(filepath.Join(refDir, "chunk_snapshot.*"))
+			for _, s := range rs {
+				os.RemoveAll(s)
+			}
+			os.WriteFile(target, b, 0o666)
+			os.WriteFile(filepath.Join(refDir, "chunks_head", filepath.Base(target)), b, 0o666)
+			cleanLooking := headChunkFilesReadCleanly(filepath.Join(refDir, "chunks_head"), e.scratch("hcprobe"))
+			if cleanLooking {
+				// listed finding: a head chunk file cut at a chunk boundary reads cleanly; the snapshot is kept, the WAL
+				// is replayed from the snapshot offset only and the samples of the cut chunks are lost
+				e.res.Count("tolerated:"+TagSnapshotTrustsHeadChunks, 1)
+				if e.cfg.KF != TagSnapshotTrustsHeadChunks {
+					os.RemoveAll(refDir)
+					os.RemoveAll(dir)
+					continue
+				}
+				kfVariant = true
+			}
+			ref, err = openAndQuery(refDir)
+			os.RemoveAll(refDir)
+			if err != nil {
+				// a damaged head chunk file that makes the WAL-only open fail is C04's / C25's subject, not C23's
+				e.res.Count("headchunk_damage_reference_open_failed", 1)
+				os.RemoveAll(dir)
+				continue
+			}
+			e.res.Count("fault:head-chunk-file-damage", 1)
 		}
 		got, err := openAndQuery(dir)
 		os.RemoveAll(dir)
@@ -302,12 +601,74 @@ func (e *exec) snapshotCheck(where string) {
 			e.fail("snapshot-vs-wal", "snapshot-open-failed:"+v, "%s: open with %s snapshot failed: %v", where, v, err)
 			return
 		}
-		if d := diffResults(ref, got); d != "" {
+		if d, tag := e.diffModuloCandidates(ref, got); d != "" {
+			if debugOn {
+				os.RemoveAll("/dev/shm/verif-keep")
+				simfs.CopyTree(e.dir, "/dev/shm/verif-keep")
+				fmt.Printf("DBG kept data dir in /dev/shm/verif-keep\n")
+			}
+			if tag != "" {
+				// the two restarts differ only where a listed finding of the write path decides what a restart returns
+				e.res.Count("tolerated:"+tag, 1)
+				if e.cfg.KF == tag {
+					e.fail("snapshot-vs-wal", "known:"+tag, "%s: restart from the %s snapshot differs from restart from the WAL alone: %s", where, v, d)
+					return
+				}
+				e.res.Count("snapshot_checks:"+v, 1)
+				continue
+			}
+			if kfVariant {
+				e.fail("snapshot-vs-wal", "known:"+TagSnapshotTrustsHeadChunks, "%s: restart from the snapshot with a head chunk file cut at a chunk boundary differs from restart from the WAL alone: %s", where, d)
+				return
+			}
+			if walRefReuse(e.dir) {
+				e.fail("snapshot-vs-wal", "known:"+TagRefReuseSnapshot, "%s: restart from the %s snapshot differs from restart from the WAL alone (the WAL reuses a series ref for another label set): %s", where, v, d)
+				return
+			}
 			e.fail("snapshot-vs-wal", "snapshot-restart-differs:"+v, "%s: restart from the %s snapshot differs from restart from the WAL alone: %s", where, v, d)
 			return
 		}
 		e.res.Count("snapshot_checks:"+v, 1)
 	}
+}
+
+// TagSnapshotTrustsHeadChunks is the known finding: the chunk snapshot holds only the open head chunk of each series and
+// relies on the chunks_head files for the older ones, without recording which chunks it expects there. A head chunk
+// file that lost its tail at a chunk boundary (or everything behind its header) reads without error, the snapshot is
+// kept, the WAL is replayed from the snapshot offset only, and the samples of the missing chunks are gone although
+// the WAL still holds them (a restart without the snapshot returns them).
+const TagSnapshotTrustsHeadChunks = "snapshot-kept-when-head-chunk-file-lost-chunks-at-a-chunk-boundary"
+
+// headChunkFilesReadCleanly reports whether the head chunk files in dir (copied to scratch first) iterate without error.
+func headChunkFilesReadCleanly(dir, scratch string) bool {
+	defer os.RemoveAll(scratch)
+	if err := simfs.CopyTree(dir, filepath.Join(scratch, "chunks_head")); err != nil {
+		panic("harness: " + err.Error())
+	}
+	cdm, err := chunks.NewChunkDiskMapper(nil, filepath.Join(scratch, "chunks_head"), chunkenc.NewPool(), chunks.DefaultWriteBufferSize, chunks.DefaultWriteQueueSize)
+	if err != nil {
+		return false
+	}
+	defer cdm.Close()
+	err = cdm.IterateAllChunks(func(chunks.HeadSeriesRef, chunks.ChunkDiskMapperRef, int64, int64, uint16, chunkenc.Encoding, bool) error {
+		return nil
+	})
+	return err == nil
+}
+
+// recordOffsets returns the offsets at which the records of one WAL-format segment file end.
+func recordOffsets(path string) []int64 {
+	f, err := os.Open(path)
+	if err != nil {
+		return nil
+	}
+	defer f.Close()
+	r := wlog.NewReader(f)
+	var offs []int64
+	for r.Next() {
+		offs = append(offs, r.Offset())
+	}
+	return offs
 }
 
 func snapIndex(snaps []string) int {
